@@ -10,6 +10,7 @@ import (
 
 	"fpcheck/core"
 
+	"golang.org/x/tools/go/cfg"
 	"golang.org/x/tools/go/packages"
 	"golang.org/x/tools/go/ssa"
 )
@@ -407,9 +408,132 @@ func PromiseCAS(c *core.Ctx) {
 			return true
 		})
 	}
-	c.Floor("R-RETRY", "CompareAndSwap sites in status switches", nCAS, 4)
+	_ = nCAS
 	c.Floor("R-FINAL", "status type switches", nSwitch, 2)
+	retryCFG(c, p)
 }
+
+// retryCFG: R-RETRY independent of where the CompareAndSwap sits: from the failure edge of every `if CAS(...)` in a
+// Promise method no function exit is reachable without passing a self call (or looping back).
+func retryCFG(c *core.Ctx, p *packages.Package) {
+	info := p.TypesInfo
+	n := 0
+	for _, fb := range funcBodies(c, []*packages.Package{p}) {
+		if fb.Lit != nil || fb.Decl.Recv == nil {
+			continue
+		}
+		recvT := core.RecvTypeName(fb.Decl.Recv.List[0].Type)
+		if recvT != "Promise" && recvT != "Future" {
+			continue
+		}
+		fnObj, _ := info.Defs[fb.Decl.Name].(*types.Func)
+		isCAS := func(e ast.Expr) *ast.CallExpr {
+			call, ok := ast.Unparen(e).(*ast.CallExpr)
+			if !ok {
+				return nil
+			}
+			sel, ok := ast.Unparen(call.Fun).(*ast.SelectorExpr)
+			if !ok || sel.Sel.Name != "CompareAndSwap" {
+				return nil
+			}
+			if tv, ok := info.Types[sel.X]; ok && isAtomicRef(tv.Type) {
+				return call
+			}
+			return nil
+		}
+		hasCAS := nodeContains(fb.Body, false, func(x ast.Node) bool {
+			e, ok := x.(ast.Expr)
+			return ok && isCAS(e) != nil
+		})
+		if !hasCAS {
+			continue
+		}
+		g := newCFG(c, fb)
+		k := 0
+		// every CAS call must be the condition of an if
+		condCAS := map[*ast.CallExpr]bool{}
+		for _, b := range g.Blocks {
+			if len(b.Nodes) == 0 || len(b.Succs) != 2 {
+				continue
+			}
+			last, ok := b.Nodes[len(b.Nodes)-1].(ast.Expr)
+			if !ok {
+				continue
+			}
+			neg := false
+			e := ast.Unparen(last)
+			if u, ok := e.(*ast.UnaryExpr); ok && u.Op == token.NOT {
+				e, neg = ast.Unparen(u.X), true
+			}
+			call := isCAS(e)
+			if call == nil {
+				continue
+			}
+			condCAS[call] = true
+			k++
+			n++
+			key := fb.Name + "/cas-retry#" + itoa(k)
+			failSucc := b.Succs[1]
+			if neg {
+				failSucc = b.Succs[0]
+			}
+			selfCall := func(nd ast.Node) bool {
+				return nodeContains(nd, false, func(x ast.Node) bool {
+					cl, ok := x.(*ast.CallExpr)
+					if !ok {
+						return false
+					}
+					callee := calleeOf(info, cl)
+					return callee != nil && fnObj != nil && callee == fnObj.Origin()
+				})
+			}
+			seen := map[*cfg.Block]bool{}
+			var escapes func(x *cfg.Block) bool
+			escapes = func(x *cfg.Block) bool {
+				if seen[x] {
+					return false
+				}
+				seen[x] = true
+				if x == b {
+					return false // looped back to the CAS: a retry
+				}
+				for _, nd := range x.Nodes {
+					if selfCall(nd) {
+						return false
+					}
+				}
+				if len(x.Succs) == 0 {
+					return true
+				}
+				for _, s := range x.Succs {
+					if escapes(s) {
+						return true
+					}
+				}
+				return false
+			}
+			if escapes(failSucc) {
+				c.Add("R-RETRY", key, call.Pos(), core.Violated, "when `"+exprString(call)+"` fails (another goroutine changed the status between Get and the swap) the function can return without calling itself again or looping: the completion / registration is silently dropped — a registration racing with Complete leaves the promise incomplete for ever")
+			} else {
+				c.Add("R-RETRY", key, call.Pos(), core.Discharged, "a failed swap always re-enters")
+			}
+		}
+		// CAS calls that are not an if-condition
+		ast.Inspect(fb.Body, func(x ast.Node) bool {
+			if e, ok := x.(ast.Expr); ok {
+				if call := isCAS(e); call != nil && !condCAS[call] {
+					n++
+					k++
+					c.Add("R-RETRY", fb.Name+"/cas-retry#"+itoa(k), call.Pos(), core.Violated, "the result of CompareAndSwap is not tested: a lost race goes unnoticed")
+				}
+			}
+			return true
+		})
+	}
+	c.Floor("R-RETRY", "CompareAndSwap sites in Promise methods", n, 2)
+}
+
+func unusedPromiseCAS() {}
 
 func enclosedByLoop(body *ast.BlockStmt, target ast.Node) bool {
 	found := false
@@ -531,3 +655,4 @@ func AtomicCell(c *core.Ctx, rule string) {
 	}
 	c.Floor(rule, "accesses of the atomic cell", n, 4)
 }
+
